@@ -261,11 +261,15 @@ impl BufferedUdpMetricSink {
 impl MetricSink for BufferedUdpMetricSink {
     fn emit(&self, metric: &str) -> io::Result<usize> {
         let mut writer = self.buffer.lock().unwrap();
+        #[cfg(cadence_verif)]
+        let _verif = crate::verif::Scope::new("buf.locked", "buf.unlocking", self as *const Self as usize);
         writer.write(metric.as_bytes())
     }
 
     fn flush(&self) -> io::Result<()> {
         let mut writer = self.buffer.lock().unwrap();
+        #[cfg(cadence_verif)]
+        let _verif = crate::verif::Scope::new("buf.locked", "buf.unlocking", self as *const Self as usize);
         writer.flush()
     }
 
